@@ -113,6 +113,8 @@ Step == /\ l <= Len(T.ev) /\ l' = l + 1 /\ tid' = tid
              [] e.k = "stream" -> verdict' = StreamClause(e) /\ failed' = None
              [] e.k = "queue" -> /\ verdict' = (IF Len(e.air) > 0 THEN <<"C02.OnlyOwnPayload", "write_only payloads were transmitted while CE is low">> ELSE <<"ok", "">>)
                                  /\ failed' = None
+             [] e.k = "rxturn" -> /\ verdict' = (IF Len(e.air) > 0 THEN <<"C02.OnlyOwnPayload", "a turn as receiver transmitted something">> ELSE <<"ok", "">>)
+                                  /\ failed' = None        \* (leaving RX mode with ACK payloads enabled empties the TX FIFO)
              [] e.k = "txread" -> /\ verdict' = (IF Len(e.air) > 0 THEN <<"C02.OnlyOwnPayload", "reading the RX FIFO transmitted something">> ELSE <<"ok", "">>)
                                   /\ failed' = failed       \* reading ACK payloads does not touch the failed payload
              [] e.k = "drain" -> verdict' = DrainClause(e, T.ev[l - 1]) /\ failed' = failed
